@@ -820,7 +820,7 @@ class Interp:
                 return Opaque("enum-name")
             v = obj.cls.lookup(name)
             if v is MISSING:
-                raise self.exc("AttributeError", name)
+                self._missing_attribute(obj.cls, name, obj.cls.name)
             return self._bind(v, obj, obj.cls)
         if isinstance(obj, Instance):
             if name in obj.attrs:
@@ -2176,7 +2176,7 @@ class _Super:
                 if isinstance(v, Builtin):
                     return BoundMethod(v, self.obj)
                 return v
-        raise interp.exc("AttributeError", name)
+        interp._missing_attribute(self.cls, name, f"super({self.cls.name})")
 
 
 def _load(target):
